@@ -197,6 +197,33 @@ func DrawingOpcode(r *run.Rng) byte {
 // with random content; it is valid except for one viewBox variant in ten that
 // carries a non-finite bound.
 func (a *Asm) Metadata(r *run.Rng) {
+	if r.Chance(1, 24) {
+		// one chunk with an identifier that does not exist (invalid), its body and
+		// length those of a well-formed viewBox or palette chunk; the values include
+		// ones that equal 0 or 1 in their low 8 or 16 bits
+		mid := uint32(r.Pick(2, 3, 127, 128, 255, 256, 257, 512, 513, 16383, 16384, 65536, 65537, 1<<24, 1<<24+1, 0x3fffffff))
+		var c Asm
+		w := 4
+		if mid < 16384 && r.Bool() {
+			w = 2
+		}
+		if mid < 128 && r.Bool() {
+			w = 1
+		}
+		c.Nat(mid, w)
+		if r.Bool() {
+			c.Nat(32, 1)
+			c.Nat(32, 1)
+			c.Nat(96, 1)
+			c.Nat(96, 1)
+		} else {
+			c.Byte(0x01, 0x28, 0x50) // two 1-byte colours
+		}
+		a.Nat(1, 1)
+		a.Nat(uint32(len(c.B)), 1)
+		a.Byte(c.B...)
+		return
+	}
 	hasVB, hasPal := r.Chance(1, 3), r.Chance(1, 3)
 	n := 0
 	if hasVB {
